@@ -11,31 +11,35 @@ import MoPepGen.Driver.C13
 import MoPepGen.Driver.C18
 import MoPepGen.Driver.C19
 
-/-- one line in (`<stream>\t<op>\t<args…>`), one line out -/
-def dispatch (line : String) : String :=
-  match line.splitOn "\t" with
-  | "C10" :: args => MoPepGen.Driver.C10.handle args
-  | "P" :: args => MoPepGen.Driver.Pipe.handle args
-  | "C12" :: args => MoPepGen.Driver.C12.handle args
-  | "C20" :: args => MoPepGen.Driver.C20.handle args
-  | "S" :: args => MoPepGen.Driver.S.handle args
-  | "C11" :: args => MoPepGen.Driver.C11.handle args
-  | "C13" :: args => MoPepGen.Driver.C13.handle args
-  | "C18" :: args => MoPepGen.Driver.C18.handle args
-  | "C19" :: args => MoPepGen.Driver.C19.handle args
-  | "C14" :: args => MoPepGen.Driver.C14.handle args
-  | "C16" :: args => MoPepGen.Driver.C16.handle args
-  | "C15" :: args => MoPepGen.Driver.C15.handle args
-  | _ => "bad-stream"
+/-- driver state: only the `S` stream keeps one (the stored case of its `set` op) -/
+abbrev St := Option MoPepGen.Driver.S.SCase
 
-partial def loop (h : IO.FS.Stream) (out : IO.FS.Stream) : IO Unit := do
+/-- one line in (`<stream>\t<op>\t<args…>`), one line out -/
+def dispatch (st : St) (line : String) : St × String :=
+  match line.splitOn "\t" with
+  | "S" :: args => MoPepGen.Driver.S.handle st args
+  | "C10" :: args => (st, MoPepGen.Driver.C10.handle args)
+  | "P" :: args => (st, MoPepGen.Driver.Pipe.handle args)
+  | "C12" :: args => (st, MoPepGen.Driver.C12.handle args)
+  | "C20" :: args => (st, MoPepGen.Driver.C20.handle args)
+  | "C11" :: args => (st, MoPepGen.Driver.C11.handle args)
+  | "C13" :: args => (st, MoPepGen.Driver.C13.handle args)
+  | "C18" :: args => (st, MoPepGen.Driver.C18.handle args)
+  | "C19" :: args => (st, MoPepGen.Driver.C19.handle args)
+  | "C14" :: args => (st, MoPepGen.Driver.C14.handle args)
+  | "C16" :: args => (st, MoPepGen.Driver.C16.handle args)
+  | "C15" :: args => (st, MoPepGen.Driver.C15.handle args)
+  | _ => (st, "bad-stream")
+
+partial def loop (h : IO.FS.Stream) (out : IO.FS.Stream) (st : St) : IO Unit := do
   let line ← h.getLine
   if line.isEmpty then return ()
   let l := (line.dropEndWhile (· == (Char.ofNat 10))).toString
-  out.putStrLn (dispatch l)
-  loop h out
+  let (st', o) := dispatch st l
+  out.putStrLn o
+  loop h out st'
 
 def main : IO Unit := do
   let out ← IO.getStdout
-  loop (← IO.getStdin) out
+  loop (← IO.getStdin) out none
   out.flush
